@@ -432,7 +432,7 @@ def engine_witness(whats):
 
 
 # ---------------------------------------------------------------------------
-# _coalesce_warps: loop invariant "the segments so far are disjoint, non-touching and cover exactly the union of the warps seen"
+# _coalesce_warps: "the segments so far are disjoint, non-touching and cover exactly the union of the warps seen"
 
 
 class CoalesceWarps(Unit):
@@ -442,44 +442,76 @@ class CoalesceWarps(Unit):
     LQ = Q + "TimingEngine._coalesce_warps"
 
     def run(self, ex):
-        from pyvc.execu import LoopSpec, field_slot
+        from pyvc.execu import LoopSpec, field_slot, Schema
         e = EN.E()
         t = EN.T()
         BV = TNT(t.BeatValue)
-        W = ex.sym(TSeq(BV), "warps")
+        SEQ = TSeq(BV)
+        W = ex.sym(SEQ, "warps")
         n = z3.Length(W.t)
-        jq, kq, y = z3.Int("j!q"), z3.Int("k!q"), z3.Real("y!q")
+        R = z3.RealSort()
+        # spec functions: is y inside one of the first i warps / inside one of the segments (recursion on the last element)
+        INW = z3.Function("in_first_warps", SEQ.sort(), z3.IntSort(), R, z3.BoolSort())
+        INS = z3.Function("in_segments", SEQ.sort(), SEQ.sort(), R, z3.BoolSort())
 
         def wb(j):
             return BV.acc(W.t[j], "beat")
 
         def wlen(j):
-            # Beat(warp.value): a decimal length snapped to the tick grid (C14)
-            return z3.ToReal(M.real_round_half_even(BV.acc(W.t[j], "value") * 48)) / 48
-
-        # domain (C11): strictly increasing non-negative beats, positive (snapped) lengths
-        ex.assume(z3.ForAll([jq], z3.Implies(z3.And(jq >= 0, jq < n), z3.And(wb(jq) >= 0, wlen(jq) > 0))))
-        ex.assume(z3.ForAll([jq], z3.Implies(z3.And(jq >= 0, jq + 1 < n), wb(jq) < wb(jq + 1))))
-        td = HObj(t.TimingData, {"warps": SM.new_userlist(t.BeatValues, W, "warps")}, "timing_data")
-        eng = HObj(e.TimingEngine, {"timing_data": td}, "self")
+            return z3.ToReal(M.real_round_half_even(BV.acc(W.t[j], "value") * 48)) / 48     # Beat(warp.value): snapped (C14)
 
         def beat_of(seq, k):
             return BV.acc(seq[k], "beat")
 
+        def inw_unfold(i, y):
+            return [INW(W.t, z3.IntVal(0), y) == z3.BoolVal(False),
+                    z3.Implies(z3.And(i >= 0, i < n), INW(W.t, i + 1, y) == z3.Or(INW(W.t, i, y), z3.And(wb(i) <= y, y < wb(i) + wlen(i))))]
+
+        def ins_unfold(S_, E_, y):
+            m = z3.Length(S_)
+            e0 = z3.Empty(SEQ.sort())
+            return [INS(e0, e0, y) == z3.BoolVal(False),
+                    z3.Implies(m >= 1, INS(S_, E_, y) == z3.Or(INS(z3.SubSeq(S_, 0, m - 1), z3.SubSeq(E_, 0, m - 1), y),
+                                                               z3.And(beat_of(S_, m - 1) <= y, y < beat_of(E_, m - 1))))]
+
+        jq = z3.Int("j!q")
+        # domain (C11): strictly increasing non-negative beats, positive (snapped) lengths - instantiated where needed
+        def dom(i):
+            return z3.And(z3.Implies(z3.And(i >= 0, i < n), z3.And(wb(i) >= 0, wlen(i) > 0)),
+                          z3.Implies(z3.And(i >= 1, i < n), wb(i - 1) < wb(i)))
+
+        td = HObj(t.TimingData, {"warps": SM.new_userlist(t.BeatValues, W, "warps")}, "timing_data")
+        eng = HObj(e.TimingEngine, {"timing_data": td}, "self")
+        state = {}
+
         def inv(ex_, fr, i, vals):
             S_, E_ = vals["starts"].t, vals["ends"].t
             m = z3.Length(S_)
-            in_warp = z3.Exists([jq], z3.And(jq >= 0, jq < i, wb(jq) <= y, y < wb(jq) + wlen(jq)))
-            in_seg = z3.Exists([kq], z3.And(kq >= 0, kq < m, beat_of(S_, kq) <= y, y < beat_of(E_, kq)))
-            return [("lengths", z3.And(z3.Length(E_) == m, (m == 0) == (i == 0))),
-                    ("segments-nonempty", z3.ForAll([kq], z3.Implies(z3.And(kq >= 0, kq < m), beat_of(S_, kq) < beat_of(E_, kq)))),
-                    ("segments-apart", z3.ForAll([kq], z3.Implies(z3.And(kq >= 0, kq + 1 < m), beat_of(E_, kq) < beat_of(S_, kq + 1)))),
-                    ("last-start-not-after-last-warp", z3.Implies(i > 0, z3.And(beat_of(S_, m - 1) <= wb(i - 1), wb(i - 1) < beat_of(E_, m - 1)))),
-                    ("cover", z3.ForAll([y], in_warp == in_seg))]
+            prev = state.get("prev")
+            state["prev"] = (S_, E_)
 
-        slots = [field_slot("starts", lambda ex_, fr: fr.locals["warp_starts"], "data", TSeq(BV)),
-                 field_slot("ends", lambda ex_, fr: fr.locals["warp_ends"], "data", TSeq(BV))]
-        ex.loop_specs[(self.LQ, 0)] = LoopSpec(slots, inv)
+            def cover(y):
+                return INW(W.t, i, y) == INS(S_, E_, y)
+
+            def cover_using(y):
+                out = inw_unfold(i, y) + inw_unfold(i - 1, y) + ins_unfold(S_, E_, y)
+                if prev is not None:
+                    out += ins_unfold(prev[0], prev[1], y)
+                return out
+
+            return [("lengths", z3.And(z3.Length(E_) == m, (m == 0) == (i == 0))),
+                    ("last-segment", z3.Implies(i > 0, z3.And(beat_of(S_, m - 1) <= wb(i - 1), wb(i - 1) < beat_of(E_, m - 1),
+                                                              beat_of(S_, m - 1) < beat_of(E_, m - 1)))),
+                    ("segments-nonempty", Schema(z3.IntSort(), lambda k: z3.Implies(z3.And(k >= 0, k < m), beat_of(S_, k) < beat_of(E_, k)))),
+                    ("segments-apart", Schema(z3.IntSort(), lambda k: z3.Implies(z3.And(k >= 0, k + 1 < m), beat_of(E_, k) < beat_of(S_, k + 1)))),
+                    ("cover", Schema(R, cover, cover_using))]
+
+        def using(ex_, fr, i, vals):
+            return [dom(i), dom(i - 1), dom(i + 1)]
+
+        slots = [field_slot("starts", lambda ex_, fr: fr.locals["warp_starts"], "data", SEQ),
+                 field_slot("ends", lambda ex_, fr: fr.locals["warp_ends"], "data", SEQ)]
+        ex.loop_specs[(self.LQ, 0)] = LoopSpec(slots, inv, using)
         kind, r = ex.run_function(ex.closure_of(self.LQ, owner=e.TimingEngine), [eng])
         if kind == "raise":
             ex.prove("post:noraise", False, f"raised {r!r}")
@@ -487,14 +519,23 @@ class CoalesceWarps(Unit):
         (s_obj, s_tag), (e_obj, e_tag) = r
         ok_tags = s_tag is e.EventTag.WARP and e_tag is e.EventTag.WARP_END
         S_, E_ = s_obj.fields["data"], e_obj.fields["data"]
-        S_ = S_.t if is_sym(S_) else TSeq(BV).lift(S_)
-        E_ = E_.t if is_sym(E_) else TSeq(BV).lift(E_)
-        m = z3.Length(S_)
-        in_warp = z3.Exists([jq], z3.And(jq >= 0, jq < n, wb(jq) <= y, y < wb(jq) + wlen(jq)))
-        in_seg = z3.Exists([kq], z3.And(kq >= 0, kq < m, beat_of(S_, kq) <= y, y < beat_of(E_, kq)))
+        S_ = S_.t if is_sym(S_) else SEQ.lift(S_)
+        E_ = E_.t if is_sym(E_) else SEQ.lift(E_)
         ex.prove("post:tags", z3.BoolVal(bool(ok_tags)))
-        ex.prove("post:union-of-warps", z3.And(z3.Length(E_) == m, z3.ForAll([y], in_warp == in_seg)),
-                 "overlapping or touching warps act as their union: the WARP/WARP_END pairs cover exactly the union of the warp segments")
-        ex.prove("post:alternating", z3.And(z3.ForAll([kq], z3.Implies(z3.And(kq >= 0, kq < m), beat_of(S_, kq) < beat_of(E_, kq))),
-                                            z3.ForAll([kq], z3.Implies(z3.And(kq >= 0, kq + 1 < m), beat_of(E_, kq) < beat_of(S_, kq + 1)))),
-                 "WARP and WARP_END events strictly alternate")
+        y1 = fresh_term(R, "y")
+        sch = ex.ghost.get(("schemas", (self.LQ, 0)), {}).get("cover")
+        if sch is not None:
+            ex.assume(sch.at(ex, y1))
+        ex.prove("post:union-of-warps", z3.And(z3.Length(E_) == z3.Length(S_), INW(W.t, n, y1) == INS(S_, E_, y1)),
+                 "overlapping or touching warps act as their union: a beat lies between a WARP and its WARP_END exactly when it lies inside some warp")
+        k1 = fresh_term(z3.IntSort(), "k")
+        schs = ex.ghost.get(("schemas", (self.LQ, 0)), {})
+        for lab in ("segments-nonempty", "segments-apart"):
+            if lab in schs:
+                ex.assume(schs[lab].at(ex, k1))
+        m = z3.Length(S_)
+        ex.prove("post:alternating", z3.And(z3.Implies(z3.And(k1 >= 0, k1 < m), beat_of(S_, k1) < beat_of(E_, k1)),
+                                            z3.Implies(z3.And(k1 >= 0, k1 + 1 < m), beat_of(E_, k1) < beat_of(S_, k1 + 1))),
+                 "WARP and WARP_END events strictly alternate: every segment is non-empty and ends before the next one starts")
+
+
